@@ -10,34 +10,60 @@ import (
 var e9 = sdk.NewInt(1000000000)
 var e18 = sdk.NewIntFromUint64(1000000000000000000)
 
-// anyDecimal: a decimal amount string with at most nine fractional digits, 0 <= value < 10^30.
-// The string is symbolic; its numeric value is whatever the SDK's own decimal parser reads
-// (character-level parsing is outside the claim), returned as the integer value × 10^9.
-func anyDecimal(name string) (string, sdk.Int) {
+// anyDecimal: a decimal amount string with at most nine fractional digits, |value| < 10^30
+// (negative amounts included). The string is symbolic; its numeric value is whatever the SDK's own
+// decimal parser reads (character-level parsing is outside the claim), returned as the integer
+// value × 10^9.
+func anyDecimal(name string, allowNeg bool) (string, sdk.Int) {
 	s := rt.Str(name)
 	d, err := sdk.NewDecFromStr(s)
 	rt.Assume(err == nil)
 	raw := rt.DecRawOf(d) // value × 10^18
-	rt.Assume(rt.And(rt.IntLe(sdk.ZeroInt(), raw), rt.IntEq(rt.IntMod(raw, e9), sdk.ZeroInt())))
-	rt.Assume(rt.IntLt(raw, e18.Mul(e18).Mul(sdk.NewInt(1000000000000)))) // < 10^30 × 10^18
+	rt.Assume(rt.IntEq(rt.IntMod(raw, e9), sdk.ZeroInt()))
+	lim := e18.Mul(e18).Mul(sdk.NewInt(1000000000000)) // 10^30 × 10^18
+	rt.Assume(rt.And(rt.IntLt(raw, lim), rt.IntLt(lim.Neg(), raw)))
+	if !allowNeg {
+		rt.Assume(rt.IntLe(sdk.ZeroInt(), raw))
+	}
 	return s, rt.IntDivFloor(raw, e9)
+}
+
+// signedStr: decimal rendering of a possibly negative integer.
+func signedStr(n sdk.Int) string {
+	if rt.IntLt(n, sdk.ZeroInt()) {
+		return "-" + rt.IntStr(n.Neg())
+	}
+	return rt.IntStr(n)
+}
+
+// fundStr: n nund as a FUND amount with nine decimals (sign, integer part, ".", nine digits).
+func fundStr(n sdk.Int) string {
+	sign := ""
+	if rt.IntLt(n, sdk.ZeroInt()) {
+		sign = "-"
+		n = n.Neg()
+	}
+	return sign + rt.IntStr(rt.IntDivFloor(n, e9)) + "." + rt.Pad9(rt.IntMod(n, e9))
 }
 
 // H_C19_FundToNund: nund = FUND × 10^9 exactly.
 func H_C19_FundToNund() {
-	s, units := anyDecimal("amount") // units = FUND value × 10^9 = the exact nund amount
+	s, units := anyDecimal("amount", true) // units = FUND value × 10^9 = the exact nund amount
 	res, err := undtypes.ConvertUndDenomination(s, "fund", "nund")
 	rt.Assert("C19.fund-to-nund-ok", err == nil)
 	if err != nil {
 		return
 	}
-	rt.Assert("C19.fund-to-nund-exact", rt.StrEq(res, rt.IntStr(units)+"nund"))
+	rt.Assert("C19.fund-to-nund-exact", rt.StrEq(res, signedStr(units)+"nund"))
 	rt.Reach("end")
 }
 
 // H_C19_NundToFund: FUND = nund / 10^9 printed with nine decimals (whole nund amounts).
 func H_C19_NundToFund() {
-	s, units := anyDecimal("amount")
+	// negative nund amounts are exercised through H_C19_RoundTrip (thorough tier): with a fully
+	// symbolic input string the negative branch of the rounding was not decided within 60 s by any
+	// of the three solvers, so it is outside this harness' claim
+	s, units := anyDecimal("amount", false)
 	rt.Assume(rt.IntEq(rt.IntMod(units, e9), sdk.ZeroInt())) // a whole number of nund
 	n := rt.IntDivFloor(units, e9)
 	res, err := undtypes.ConvertUndDenomination(s, "nund", "fund")
@@ -45,27 +71,27 @@ func H_C19_NundToFund() {
 	if err != nil {
 		return
 	}
-	want := rt.IntStr(rt.IntDivFloor(n, e9)) + "." + rt.Pad9(rt.IntMod(n, e9)) + "fund"
+	want := fundStr(n) + "fund"
 	rt.Assert("C19.nund-to-fund-exact-nine-decimals", rt.StrEq(res, want))
 	rt.Reach("end")
 }
 
 // H_C19_RoundTrip: FUND -> nund -> FUND returns the original amount (as a nine-decimal string).
 func H_C19_RoundTrip() {
-	s, units := anyDecimal("amount")
+	s, units := anyDecimal("amount", rt.Thorough())
 	r1, err1 := undtypes.ConvertUndDenomination(s, "fund", "nund")
 	rt.Assert("C19.roundtrip-step1-ok", err1 == nil)
 	if err1 != nil {
 		return
 	}
-	nundStr := rt.IntStr(units)
+	nundStr := signedStr(units)
 	rt.Assert("C19.roundtrip-step1-exact", rt.StrEq(r1, nundStr+"nund"))
 	r2, err2 := undtypes.ConvertUndDenomination(nundStr, "nund", "fund")
 	rt.Assert("C19.roundtrip-step2-ok", err2 == nil)
 	if err2 != nil {
 		return
 	}
-	rt.Assert("C19.roundtrip-returns-original", rt.StrEq(r2, rt.IntStr(rt.IntDivFloor(units, e9))+"."+rt.Pad9(rt.IntMod(units, e9))+"fund"))
+	rt.Assert("C19.roundtrip-returns-original", rt.StrEq(r2, fundStr(units)+"fund"))
 	rt.Assert("C19.same-denom-identity", func() bool { r, e := undtypes.ConvertUndDenomination(s, "fund", "fund"); return e == nil && r == s+"fund" }())
 	rt.Reach("end")
 }
